@@ -8,7 +8,6 @@ import (
 	proberlib "spanner_prober/prober"
 )
 
-
 // validateFlags with every flag a symbolic cell.  Which strings the regular expressions accept is
 // decided separately by pattern P7 (string solver on the literals of the current source); here the
 // regular-expression tests are uninterpreted and the obligation is that an accepted flag set has
